@@ -62,6 +62,22 @@ Theorem C06_add_one_per_call : forall parse addr_string encode_string,
 Proof. exact add_appends_one. Qed.
 Print Assumptions C06_add_one_per_call.
 
+(* ... for AddTo/AddCc/AddBcc and the ...Format variants alike, field by field: display NAMES and addresses
+   already stored are unchanged, the new entry carries the parsed name and address, no other header changes *)
+Theorem C06_add_keeps_names_and_addresses : forall parse addr_string encode_string,
+  (forall s a, parse s = Some a -> parse (addr_string a) = Some a) ->
+  forall calls s c v a,
+  (c = CAdd s v \/ exists n ad, c = CAddFormat s n ad /\ v = format_addr n ad) ->
+  parse v = Some a -> slot_hdr s <> hdr_from ->
+  let m := run parse addr_string encode_string calls [] in
+  let m' := fst (apply_call parse addr_string encode_string m c) in
+  map a_name (lookup m' (slot_hdr s)) = map a_name (lookup m (slot_hdr s)) ++ [a_name a]
+  /\ map a_addr (lookup m' (slot_hdr s)) = map a_addr (lookup m (slot_hdr s)) ++ [a_addr a]
+  /\ (forall k, k <> slot_hdr s -> lookup m' k = lookup m k)
+  /\ snd (apply_call parse addr_string encode_string m c) = true.
+Proof. exact add_keeps_names_and_addresses. Qed.
+Print Assumptions C06_add_keeps_names_and_addresses.
+
 (* Bcc non-interference: the rendered address fields do not depend on the Bcc list at all ... *)
 Theorem C06_bcc_noninterference : forall addr_string (m : amap) (l : list addr),
   render_addr addr_string (set m hdr_bcc l) = render_addr addr_string m.
